@@ -309,6 +309,14 @@ func genXKinds(prop string, emit func(string)) {
 		for _, dt := range []string{"i", "i8", "i16", "i32", "i64", "u", "u8", "u16", "u32", "u64", "f32", "f64"} {
 			emit("xtomat " + dt)
 		}
+	case "C08":
+		for _, dt := range []string{"f32", "f64", "i8", "i16", "i32", "i64", "i", "u8", "u16", "u32", "u64", "u"} {
+			for _, op := range []string{"sum", "max", "min"} {
+				for _, c := range []string{"3 all", "12 all", "2,3 all", "2,3 0", "2,3 1", "4,3 0", "3,4 1", "2,3,2 0", "2,3,2 1", "2,3,2 2", "2,3,2 all", "5 0", "17 all", "2,17 1", "17,2 0"} {
+					emit(fmt.Sprintf("xred %s %s %s", dt, op, c))
+				}
+			}
+		}
 	case "C14":
 		for _, f := range []string{"csv", "gob", "pb", "fb"} {
 			for _, v := range []string{"hash", "comma", "quote", "space", "newline", "empty", "unicode", "numlike", "punct"} {
@@ -343,5 +351,148 @@ func genXKinds(prop string, emit func(string)) {
 				}
 			}
 		}
+	}
+}
+
+// xred <dt> <sum|max|min> <shape> <axis|all> : reductions on values where the element type's own
+// arithmetic matters (float32/float64 rounding of big and small addends, integer sums that wrap):
+// the result must be the fold, IN THE ELEMENT TYPE, of the logical elements along the axis.
+type xnum interface {
+	~int8 | ~int16 | ~int32 | ~int64 | ~int | ~uint8 | ~uint16 | ~uint32 | ~uint64 | ~uint | ~float32 | ~float64
+}
+
+func xredRun[T xnum](vals []T, op string, sh []int, axis string) string {
+	n := prod(sh)
+	back := make([]T, n)
+	for i := range back {
+		back[i] = vals[i%len(vals)]
+	}
+	t := tensor.New(tensor.WithShape(sh...), tensor.WithBacking(append([]T(nil), back...)))
+	fold := func(a, b T) T {
+		switch op {
+		case "sum":
+			return a + b
+		case "max":
+			if b > a {
+				return b
+			}
+			return a
+		default:
+			if b < a {
+				return b
+			}
+			return a
+		}
+	}
+	var axes []int
+	if axis != "all" {
+		axes = []int{atoi(axis)}
+	}
+	var r tensor.Tensor
+	var err error
+	switch op {
+	case "sum":
+		r, err = tensor.Sum(t, axes...)
+	case "max":
+		r, err = t.Max(axes...)
+	default:
+		r, err = t.Min(axes...)
+	}
+	if err != nil {
+		return "err"
+	}
+	// oracle: group the logical elements by the coordinates of the axes that stay
+	var want []T
+	if axis == "all" {
+		acc := back[0]
+		for _, v := range back[1:] {
+			acc = fold(acc, v)
+		}
+		want = []T{acc}
+	} else {
+		ax := atoi(axis)
+		st := tensor.Shape(sh).CalcStrides()
+		var rest []int
+		for i := range sh {
+			if i != ax {
+				rest = append(rest, sh[i])
+			}
+		}
+		for _, c := range boxCoords(rest) {
+			full := make([]int, len(sh))
+			k := 0
+			for i := range sh {
+				if i != ax {
+					full[i] = c[k]
+					k++
+				}
+			}
+			off := 0
+			for i := range sh {
+				off += full[i] * st[i]
+			}
+			acc := back[off]
+			for j := 1; j < sh[ax]; j++ {
+				acc = fold(acc, back[off+j*st[ax]])
+			}
+			want = append(want, acc)
+		}
+	}
+	rd := r.(*tensor.Dense)
+	var got []T
+	if rd.IsScalar() {
+		got = []T{rd.ScalarValue().(T)}
+	} else {
+		got = rd.Data().([]T)
+	}
+	if len(got) != len(want) {
+		return fmt.Sprintf("diff:len%d", len(got))
+	}
+	for i := range want {
+		if got[i] != want[i] {
+			return fmt.Sprintf("diff:%d:%v:%v", i, got[i], want[i])
+		}
+	}
+	// the operand is unchanged
+	for i, v := range t.Data().([]T) {
+		if v != back[i] {
+			return "operand-changed"
+		}
+	}
+	return "same"
+}
+
+func init() {
+	execs["xred"] = func(a []string) string {
+		return guard(func() string {
+			sh := ints(a[2])
+			switch a[0] {
+			case "f32":
+				return xredRun([]float32{1e8, 1, -1e8, 3, 0.5, 1e-3, 16777216, 1, 1, -16777216, 7, 0.25}, a[1], sh, a[3])
+			case "f64":
+				return xredRun([]float64{1e16, 1, -1e16, 3, 0.5, 1e-9, 9007199254740992, 1, 1, -9007199254740992, 7, 0.25}, a[1], sh, a[3])
+			case "i8":
+				return xredRun([]int8{127, 1, -128, 100, 100, -100, 5, 127, 127, -1, 7, 1}, a[1], sh, a[3])
+			case "i16":
+				return xredRun([]int16{32767, 1, -32768, 30000, 30000, -100, 5, 32767, 32767, -1, 7, 1}, a[1], sh, a[3])
+			case "i32":
+				return xredRun([]int32{2147483647, 1, -2147483648, 2000000000, 2000000000, -100, 5, 2147483647, 2147483647, -1, 7, 1}, a[1], sh, a[3])
+			case "i64":
+				return xredRun([]int64{9223372036854775807, 1, -9223372036854775808, 9000000000000000000, 9000000000000000000, -100, 5, 9223372036854775807, 9223372036854775807, -1, 7, 1}, a[1], sh, a[3])
+			case "i":
+				return xredRun([]int{9223372036854775807, 1, -9223372036854775808, 9000000000000000000, 9000000000000000000, -100, 5, 9223372036854775807, 9223372036854775807, -1, 7, 1}, a[1], sh, a[3])
+			case "u8":
+				return xredRun([]uint8{255, 1, 200, 100, 100, 0, 5, 255, 255, 1, 7, 1}, a[1], sh, a[3])
+			case "u16":
+				return xredRun([]uint16{65535, 1, 60000, 30000, 30000, 0, 5, 65535, 65535, 1, 7, 1}, a[1], sh, a[3])
+			case "u32":
+				return xredRun([]uint32{4294967295, 1, 4000000000, 3000000000, 3000000000, 0, 5, 4294967295, 4294967295, 1, 7, 1}, a[1], sh, a[3])
+			case "u64":
+				return xredRun([]uint64{18446744073709551615, 1, 18000000000000000000, 9000000000000000000, 9000000000000000000, 0, 5, 18446744073709551615, 18446744073709551615, 1, 7, 1}, a[1], sh, a[3])
+			case "u":
+				return xredRun([]uint{18446744073709551615, 1, 18000000000000000000, 9000000000000000000, 9000000000000000000, 0, 5, 18446744073709551615, 18446744073709551615, 1, 7, 1}, a[1], sh, a[3])
+			}
+			return "unsupported"
+		})
 	}
 }
